@@ -603,7 +603,15 @@ class Symx:
             self.havoc_mutrefs(c, args, st)
             if not c.get('const') and key is not None:
                 self.havoc_object(key, obj, st)
-            return Function('%s' % c['q'], real=True)(Symbol('obj:' + self.lv_name(obj)), *a)
+            objsym = Symbol('obj:' + self.lv_name(obj))
+            if obj['k'] == 'Index':
+                try:
+                    ov = self.index(obj, st)
+                    if isinstance(ov, sp.Basic):
+                        objsym = ov
+                except Undecided:
+                    pass
+            return Function('%s' % c['q'], real=True)(objsym, *a)
         a = [self.sym_or_name(x, st) for x in args]
         return Function('m:%s.%s' % (self.lv_name(obj), name), real=True)(*a)
 
@@ -1329,7 +1337,10 @@ class Symx:
             pre = st.env.get(key)
             if pre is None or isinstance(pre, (Arr, LambdaVal)):
                 pre = self.symbol(self.lv_name(node), node.get('ty'))
-            delta = sp.expand(v_out - sym_in) if not v_out.has(Piecewise) else None
+            try:
+                delta = sp.expand(v_out - sym_in) if not v_out.has(Piecewise) else (v_out - sym_in)
+            except Exception:
+                delta = None
             if delta is not None and not delta.has(sym_in):
                 others = [e2 for k2, e2 in entry.items() if k2 != key]
                 if any(delta.has(o) for o in others):
